@@ -34,12 +34,33 @@ func panicSite(stack string) string {
 	return "?"
 }
 
+func cocaFrames(stack string) []string {
+	var out []string
+	for _, l := range strings.Split(stack, "\n") {
+		l = strings.TrimSpace(l)
+		if i := strings.Index(l, "/repo/"); i >= 0 && strings.Contains(l, ".go:") {
+			s := l[i+len("/repo/"):]
+			if j := strings.Index(s, " "); j >= 0 {
+				s = s[:j]
+			}
+			out = append(out, s)
+			if len(out) >= 8 {
+				break
+			}
+		}
+	}
+	return out
+}
+
+var lastFrames []string
+
 func runOne(h handler, c map[string]json.RawMessage) (out interface{}, pan string, site string) {
 	defer func() {
 		if r := recover(); r != nil {
 			st := string(debug.Stack())
 			pan = fmt.Sprint(r)
 			site = panicSite(st)
+			lastFrames = cocaFrames(st)
 			out = nil
 		}
 	}()
@@ -110,6 +131,7 @@ func main() {
 			if pan != "" {
 				res["panic"] = pan
 				res["site"] = site
+				res["frames"] = lastFrames
 			} else {
 				res["out"] = out
 			}
